@@ -65,6 +65,72 @@ impl Monitor for C09 {
             }
             st.class("confirm-with-hostile-proofs");
         }
+        // hostile blocks offered to the parent of the block just sealed: the honest block with extreme header
+        // fields, hostile transactions slipped in, transactions dropped, extreme proposer actions
+        if let Some(parent) = ob.parent {
+            use melstructs::{CoinData, CoinValue, Denom, ProposerAction, Transaction, TxKind};
+            let honest = ob.sealed.to_block();
+            let salt = h64(&honest.header.hash().0) as usize;
+            let junk_out = |d: Denom, v: u128| CoinData { covhash: crate::world::CovSpec::True.hash(), value: CoinValue(v), denom: d, additional_data: vec![0u8; salt % 40].into() };
+            let mut variants = vec![];
+            for k in 0..4usize {
+                let mut b = honest.clone();
+                match (salt + k) % 10 {
+                    0 => b.header.height = melstructs::BlockHeight(u64::MAX),
+                    1 => b.header.fee_multiplier = u128::MAX,
+                    2 => {
+                        b.header.fee_pool = CoinValue(u128::MAX);
+                        b.header.dosc_speed = u128::MAX
+                    }
+                    3 => b.proposer_action = Some(ProposerAction { fee_multiplier_delta: if salt % 2 == 0 { -128 } else { 127 }, reward_dest: melstructs::Address(Default::default()) }),
+                    4 => {
+                        let mut t = Transaction::new(TxKind::Faucet);
+                        for _ in 0..255 {
+                            t.outputs.push(junk_out(Denom::Mel, 1 << 120));
+                        }
+                        t.fee = CoinValue(1 << 120);
+                        b.transactions.insert(t);
+                    }
+                    5 => {
+                        for kind in [TxKind::Swap, TxKind::LiqDeposit, TxKind::LiqWithdraw, TxKind::DoscMint, TxKind::Stake, TxKind::Normal] {
+                            let mut t = Transaction::new(kind);
+                            t.data = vec![(salt % 251) as u8; salt % 70].into();
+                            b.transactions.insert(t);
+                        }
+                    }
+                    6 => {
+                        let mut t = Transaction::new(TxKind::Faucet);
+                        t.outputs = vec![junk_out(Denom::NewCustom, 0), junk_out(Denom::Sym, u128::MAX), junk_out(Denom::Erg, 1)];
+                        t.kind = if salt % 2 == 0 { TxKind::LiqDeposit } else { TxKind::Faucet };
+                        t.data = melstructs::PoolKey::new(Denom::Mel, Denom::Sym).to_bytes().to_vec().into();
+                        t.fee = CoinValue(u128::MAX);
+                        b.transactions.insert(t);
+                    }
+                    7 => b.transactions.clear(),
+                    8 => {
+                        b.header.network = if b.header.network == melstructs::NetID::Mainnet { melstructs::NetID::Testnet } else { melstructs::NetID::Mainnet };
+                        b.header.height = melstructs::BlockHeight(b.header.height.0.wrapping_sub(2));
+                    }
+                    _ => {
+                        // every transaction twice over with a twist: same body, signatures dropped
+                        let extra: Vec<Transaction> = b.transactions.iter().map(|t| { let mut t = t.clone(); t.sigs.clear(); t }).collect();
+                        for t in extra {
+                            b.transactions.insert(t);
+                        }
+                    }
+                }
+                variants.push(((salt + k) % 10, b));
+            }
+            for (kind, b) in variants {
+                match crate::util::catch(|| parent.apply_block(&b).is_ok()) {
+                    Ok(_) => st.class("hostile-block-handled"),
+                    Err(pi) => {
+                        return Err(Violation::new(pi.signature(), format!("apply_block panicked on hostile block variant {} at {}: {}", kind, pi.location, pi.message.chars().take(300).collect::<String>())));
+                    }
+                }
+            }
+            self.hostile_reached.push("hostile-block".into());
+        }
         if ob.trace.unspecified.is_some() {
             st.class("degenerate-pool-request-sealed");
             self.hostile_reached.push("degenerate-pool-request".into());
@@ -94,6 +160,55 @@ pub fn profile() -> Profile {
     p
 }
 
+/// Hostile liquidity histories by construction: faucets (which, in this profile, also forge liquidity tokens of
+/// existing pools in amounts around what the pool has issued), then blocks dense in withdrawals, with deposits, swaps
+/// and more faucets mixed in - several requests per pool per block.
+pub fn arb_hostile_liquidity_plan(p: &Profile) -> impl proptest::strategy::Strategy<Value = crate::plan::Plan> {
+    use crate::plan::{arb_cfg, arb_tx, kind_byte, Step};
+    use proptest::prelude::*;
+    let p2 = p.clone();
+    (
+        arb_cfg(),
+        proptest::collection::vec(arb_tx(1, 4), 2..5),
+        proptest::collection::vec((proptest::collection::vec((arb_tx(3, 3), 0u8..20), 2..7), any::<u32>(), proptest::option::of((any::<i8>(), any::<u8>()))), 2..7),
+    )
+        .prop_map(move |(cfg, faucets, rounds)| {
+            let mut steps = vec![Step::Seal(None)];
+            let mut first = vec![];
+            for mut t in faucets {
+                t.kind = kind_byte(&p2, 1, t.kind);
+                t.mutation = 255;
+                for o in t.outs.iter_mut() {
+                    if o.weight % 3 != 0 {
+                        o.denom = (o.denom / 5).min(50) * 5 + 4; // forge
+                    }
+                }
+                first.push(t);
+            }
+            steps.push(Step::Batch(first, 0));
+            for (txs, order, action) in rounds {
+                let mut b = vec![];
+                for (mut t, what) in txs {
+                    let k = match what {
+                        0..=9 => 4,
+                        10..=12 => 1,
+                        13..=15 => 3,
+                        16 | 17 => 2,
+                        _ => 0,
+                    };
+                    t.kind = kind_byte(&p2, k, t.kind);
+                    if k == 4 {
+                        t.mutation = 255;
+                    }
+                    b.push(t);
+                }
+                steps.push(Step::Batch(b, order));
+                steps.push(Step::Seal(action));
+            }
+            crate::plan::Plan { cfg, steps }
+        })
+}
+
 pub fn run(ctx: &Ctx) -> (Outcome, String, Option<bool>) {
     let mut p = profile();
     if ctx.thorough() {
@@ -101,6 +216,21 @@ pub fn run(ctx: &Ctx) -> (Outcome, String, Option<bool>) {
         p.max_txs = 10;
     }
     let mut out = super::hist::run_histories(ctx, "hostile-histories", p, ctx.scale(3000, 30000), C09::default);
+    {
+        let p3 = profile();
+        let prof3 = p3.clone();
+        out.absorb(crate::runner::run_sharded(
+            ctx,
+            "hostile-liquidity",
+            ctx.scale(600, 8000),
+            move || arb_hostile_liquidity_plan(&prof3),
+            |plan, st, shard| {
+                st.eval();
+                st.class("hostile-liquidity-history");
+                crate::plan::run_plan(plan, &p3, &mut C09::default(), st, shard)
+            },
+        ));
+    }
     // single transactions of every shape (sizes, covenant weights up to saturation, every multiplier class)
     let o = crate::runner::run_sharded(
         ctx,
@@ -116,7 +246,7 @@ pub fn run(ctx: &Ctx) -> (Outcome, String, Option<bool>) {
         },
     );
     out.absorb(o);
-    let rule = "Generated histories in adversarial mode: ~43% of transactions mutated (off-by-one values, repeated/missing/spent inputs, dropped or garbage covenants, corrupted or foreign signatures, MAX_COINVAL+1, 256 outputs, fee-1, swapped kind, random data, duplicates, empty transactions, destroyed outputs), zero-valued and maximal pool requests, pool keys in 6 alternative spellings (~35% of requests), every proposer delta class, every fee-multiplier class, undecodable stake documents. Oracle: every call of apply_tx_batch, seal, header, next_unsealed, to_block/from_block runs under catch_unwind (engine built with overflow checks and debug assertions); any panic is a violation keyed by (panic site, message class); a watchdog turns a hang into exit 2. A second phase applies single faucet transactions of every shape (0-255 outputs, data to 4 KiB, 0-4 covenants whose weights range from 1 to saturation through up to 10 nested 65535-iteration loops, multipliers 0..2^100) and treats any panic as a violation. Non-trivial = a case in which >=1 hostile shape reached the STF and the call returned a rejection or sealing survived; distinct by the set of hostile shapes in the case.".to_string();
+    let rule = "Generated histories in adversarial mode: ~43% of transactions mutated (off-by-one values, repeated/missing/spent inputs, dropped or garbage covenants, corrupted or foreign signatures, MAX_COINVAL+1, 256 outputs, fee-1, swapped kind, random data, duplicates, empty transactions, destroyed outputs), zero-valued and maximal pool requests, pool keys in 6 alternative spellings (~35% of requests), every proposer delta class, every fee-multiplier class, undecodable stake documents. Oracle: every call of apply_tx_batch, seal, header, next_unsealed, to_block/from_block runs under catch_unwind (engine built with overflow checks and debug assertions); any panic is a violation keyed by (panic site, message class); a watchdog turns a hang into exit 2. A phase of hostile liquidity histories by construction: faucets that also forge liquidity tokens of existing pools (amounts equal to / 60% of / just above what the pool has issued), then blocks dense in withdrawals (several per pool per block), deposits, swaps and more faucets; every sealed block is also offered back to its parent in 4 of 10 hostile variants (extreme header fields, hostile or signature-less transactions slipped in, transactions dropped, extreme proposer actions) through apply_block. Another phase applies single faucet transactions of every shape (0-255 outputs, data to 4 KiB, 0-4 covenants whose weights range from 1 to saturation through up to 10 nested 65535-iteration loops, multipliers 0..2^100) and treats any panic as a violation. Non-trivial = a case in which >=1 hostile shape reached the STF and the call returned a rejection or sealing survived; distinct by the set of hostile shapes in the case.".to_string();
     (out, rule, None)
 }
 
